@@ -361,6 +361,19 @@ impl StoreLike for DictZipBlobStore {
         match name {
             // clears the decompression cache and validates: no record may change
             "Optimize" => Some(self.optimize().map(|_| Effect::Unchanged).map_err(|e| e.to_string())),
+            // save_dictionary -> load_dictionary ("replaces current dictionary"): every record is dropped, because the
+            // stored bytes are tied to the dictionary they were compressed with; no id may answer afterwards
+            "ReloadDict" => {
+                static N: std::sync::atomic::AtomicUsize = std::sync::atomic::AtomicUsize::new(0);
+                let path = std::env::temp_dir().join(format!(
+                    "zv-c03-dict-{}-{}",
+                    std::process::id(),
+                    N.fetch_add(1, std::sync::atomic::Ordering::Relaxed)
+                ));
+                let r = self.save_dictionary(&path).and_then(|_| self.load_dictionary(&path));
+                let _ = std::fs::remove_file(&path);
+                Some(r.map(|_| Effect::Cleared).map_err(|e| e.to_string()))
+            }
             _ => None,
         }
     }
@@ -1302,6 +1315,15 @@ fn register_e1_audit(reg: &mut zverif::Registry) {
             .removes(2)
             .extras(&["Optimize"])
             .depth(3, 3),
+    ));
+    // load_dictionary() in the middle of a history: it drops every record, also those a read has left in the cache
+    reg.add(Seq(
+        StoreSpec::new("DictZipBlobStore[entropy=None,cache=1]/reload_dict", |_| dictzip(DzEntropy::None, 0, 0.8, 1024, 2))
+            .records(&[ZZ, C300])
+            .batches(&[])
+            .removes(1)
+            .extras(&["ReloadDict"])
+            .depth(3, 4),
     ));
 }
 
